@@ -376,8 +376,8 @@ class Circuit(object):
             if you included IfUnused.
         """
 
-        # we're already closed; nothing to do
-        if self.state == 'CLOSED':
+        # we're already gone (Tor said CLOSED or FAILED); nothing to do
+        if self.state in ('CLOSED', 'FAILED'):
             return defer.succeed(None)
 
         # someone already called close() but we're not closed yet
@@ -391,10 +391,11 @@ class Circuit(object):
             return d
 
         # actually-close the circuit
-        self._closing_deferred = defer.Deferred()
+        closing = self._closing_deferred = defer.Deferred()
 
         def close_command_is_queued(*args):
-            return self._closing_deferred
+            # (not whatever self._closing_deferred is by now)
+            return closing
         d = self._torstate.close_circuit(self.id, **kw)
         d.addCallback(close_command_is_queued)
         return d
